@@ -687,3 +687,156 @@ Lemma for_exhausted_ends f P e var rg body st st1 :
   for_next rg st = (Ok None, st1) ->
   exec_for (S f) P e var rg body st = (Ok (SigNone, e), st1).
 Proof. intros H1. rewrite exec_for_unfold, (bindM_ok _ _ _ _ _ H1). reflexivity. Qed.
+
+(* --- where a signal can come from (syntactic origin) --- *)
+(* a [break] that reaches the enclosing loop is separated from it by if-blocks only *)
+Fixpoint break_reachable (s : stmt) : bool :=
+  match s with
+  | SBreak => true
+  | SIf conds els =>
+      existsb (fun cb => let '(_, b) := cb in existsb break_reachable b) conds ||
+      match els with Some b => existsb break_reachable b | None => false end
+  | _ => false
+  end.
+
+Fixpoint return_reachable (s : stmt) : bool :=
+  match s with
+  | SReturn _ => true
+  | SIf conds els =>
+      existsb (fun cb => let '(_, b) := cb in existsb return_reachable b) conds ||
+      match els with Some b => existsb return_reachable b | None => false end
+  | SWhile _ b => existsb return_reachable b
+  | SFor _ _ _ b => existsb return_reachable b
+  | _ => false
+  end.
+
+Definition sigQ (sig : signal) (brk rtn : bool) : Prop :=
+  (sig = SigBreak -> brk = true) /\ (forall v, sig = SigReturn v -> rtn = true).
+
+Definition signal_inv (n : nat) : Prop :=
+  (forall P e s, post (exec_stmt n P e s)
+     (fun r => sigQ (fst r) (break_reachable s) (return_reachable s))) /\
+  (forall P e l, post (exec_stmts n P e l)
+     (fun r => sigQ (fst r) (existsb break_reachable l) (existsb return_reachable l))) /\
+  (forall P e l, post (exec_block n P e l)
+     (fun r => sigQ (fst r) (existsb break_reachable l) (existsb return_reachable l))) /\
+  (forall P e c body, post (exec_cond n P e c body)
+     (fun r => forall sig, fst r = Some sig ->
+               sigQ sig (existsb break_reachable body) (existsb return_reachable body))) /\
+  (forall P e c body, post (exec_while n P e c body)
+     (fun r => sigQ (fst r) false (existsb return_reachable body))) /\
+  (forall P e var rg body, post (exec_for n P e var rg body)
+     (fun r => sigQ (fst r) false (existsb return_reachable body))).
+
+Lemma sigQ_none b r : sigQ SigNone b r.
+Proof. split; [discriminate | intros; discriminate]. Qed.
+
+Lemma sigQ_ret v b : sigQ (SigReturn v) b true.
+Proof. split; [discriminate | reflexivity]. Qed.
+
+Lemma sigQ_brk r : sigQ SigBreak true r.
+Proof. split; [reflexivity | discriminate]. Qed.
+
+Lemma sigQ_mono sig b r b' r' :
+  sigQ sig b r -> (b = true -> b' = true) -> (r = true -> r' = true) -> sigQ sig b' r'.
+Proof. intros [H1 H2] Hb Hr. split; [intro E; apply Hb, H1, E | intros v E; apply Hr, (H2 v E)]. Qed.
+
+Lemma if_go_signal f P els :
+  (forall e l, post (exec_block f P e l)
+     (fun r => sigQ (fst r) (existsb break_reachable l) (existsb return_reachable l))) ->
+  (forall e c body, post (exec_cond f P e c body)
+     (fun r => forall sig, fst r = Some sig ->
+               sigQ sig (existsb break_reachable body) (existsb return_reachable body))) ->
+  forall cs e, post (if_go f P els cs e)
+     (fun r => sigQ (fst r) (break_reachable (SIf cs els)) (return_reachable (SIf cs els))).
+Proof.
+  intros HB HC cs. induction cs as [|[c body] t IH]; intro e.
+  - simpl. destruct els as [body|]; [|apply post_ret; apply sigQ_none].
+    eapply post_bind; [apply HB|]. intros [sig e1] H; simpl in H. apply post_ret; exact H.
+  - cbn [if_go]. eapply post_bind; [apply HC|]. intros [r e1] H; simpl in H.
+    destruct r as [sig|].
+    + apply post_ret. cbn [fst]. eapply sigQ_mono; [apply H; reflexivity | |]; simpl; intros ->; reflexivity.
+    + eapply post_weaken; [apply IH|]. intros rr Ha; simpl in Ha.
+      eapply sigQ_mono; [exact Ha | |]; simpl; intro E;
+        rewrite <- orb_assoc, E; apply orb_true_r.
+Qed.
+
+Theorem signal_inv_all : forall n, signal_inv n.
+Proof.
+  induction n as [|f IH].
+  { unfold signal_inv; repeat apply conj; intros; apply post_fail. }
+  destruct IH as (Hs & Hss & Hb & Hc & Hw & Hf).
+  unfold signal_inv; repeat apply conj.
+  - intros P e s. destruct s.
+    + simpl. repeat mstep; simpl; apply sigQ_none.
+    + simpl. do 4 (apply post_bind_any; intro).
+      destruct target; try (apply post_internal); repeat mstep; simpl; apply sigQ_none.
+    + simpl. repeat mstep; simpl; apply sigQ_none.
+    + simpl. apply post_bind_any; intro. destruct e0; repeat mstep; simpl; apply sigQ_ret.
+    + simpl. repeat mstep; simpl; apply sigQ_brk.
+    + rewrite exec_stmt_if. apply post_bind_any; intro. apply if_go_signal; [apply Hb | apply Hc].
+    + simpl. apply post_bind_any; intro. apply Hw.
+    + rewrite exec_stmt_for. apply post_bind_any; intro. apply post_bind_any; intros [rg e2].
+      eapply post_bind; [apply Hf|]. intros [sig e3] H; simpl in H. apply post_ret; exact H.
+    + simpl. repeat mstep; simpl; apply sigQ_none.
+  - intros P e l. destruct l as [|s t]; [rewrite exec_stmts_nil; apply post_ret; apply sigQ_none|].
+    rewrite exec_stmts_cons. eapply post_bind; [apply Hs|]. intros [sig e1] H; simpl in H.
+    destruct (is_ctl sig).
+    + apply post_ret. simpl. eapply sigQ_mono; [exact H | |]; intros ->; reflexivity.
+    + eapply post_weaken; [apply Hss|]. intros rr Ha; simpl in Ha.
+      eapply sigQ_mono; [exact Ha | |]; simpl; intros ->; apply orb_true_r.
+  - intros P e l. rewrite exec_block_unfold. apply post_bind_any; intro. apply Hss.
+  - intros P e c body. rewrite exec_cond_unfold. do 2 (apply post_bind_any; intro).
+    destruct a0; try apply post_internal. destruct b; [|apply post_ret; simpl; discriminate].
+    eapply post_bind; [apply Hb|]. intros [sig e2] H; simpl in H.
+    apply post_ret; simpl. intros sg E; inversion E; subst. exact H.
+  - intros P e c body. rewrite while_unfold.
+    eapply post_bind; [apply Hc|]. intros [r e1] H; simpl in H.
+    destruct r as [[| |v]|]; try (apply post_ret; apply sigQ_none).
+    + apply Hw.
+    + apply post_ret. simpl. destruct (H _ eq_refl) as [_ H2]. split; [discriminate | intros w _; exact (H2 v eq_refl)].
+  - intros P e var rg body. rewrite exec_for_unfold. apply post_bind_any; intros [[l rg']|]; simpl;
+      [|apply post_ret; apply sigQ_none].
+    apply post_bind_any; intro e1.
+    eapply post_bind; [apply Hb|]. intros [sig e2] H; simpl in H.
+    destruct sig; [apply Hf | apply post_ret; apply sigQ_none|].
+    apply post_ret. simpl. destruct H as [_ H2]. split; [discriminate | intros w _; exact (H2 v eq_refl)].
+Qed.
+
+(* loops never let a break escape *)
+Theorem while_consumes_break n P e c body st sig e' st' :
+  exec_while n P e c body st = (Ok (sig, e'), st') -> sig <> SigBreak.
+Proof.
+  intros H E. destruct (signal_inv_all n) as (_ & _ & _ & _ & Hw & _).
+  apply Hw in H. destruct H as [H _]. simpl in H. apply H in E. discriminate.
+Qed.
+
+Theorem for_consumes_break n P e var rg body st sig e' st' :
+  exec_for n P e var rg body st = (Ok (sig, e'), st') -> sig <> SigBreak.
+Proof.
+  intros H E. destruct (signal_inv_all n) as (_ & _ & _ & _ & _ & Hf).
+  apply Hf in H. destruct H as [H _]. simpl in H. apply H in E. discriminate.
+Qed.
+
+(* a statement signals break only if it is a [break] under if-blocks only:
+   in particular a loop statement never does, whatever its body contains, so a
+   break ends exactly the innermost loop around it *)
+Theorem break_origin n P e s st e' st' :
+  exec_stmt n P e s st = (Ok (SigBreak, e'), st') -> break_reachable s = true.
+Proof.
+  intros H. destruct (signal_inv_all n) as (Hs & _). apply Hs in H. destruct H as [H _]. exact (H eq_refl).
+Qed.
+
+Theorem loop_stmt_never_breaks n P e s st sig e' st' :
+  (exists c b, s = SWhile c b) \/ (exists v t r b, s = SFor v t r b) ->
+  exec_stmt n P e s st = (Ok (sig, e'), st') -> sig <> SigBreak.
+Proof.
+  intros K H E. subst sig. apply break_origin in H.
+  destruct K as [(c & b & ->) | (v & t & r & b & ->)]; discriminate.
+Qed.
+
+Theorem return_origin n P e s st v e' st' :
+  exec_stmt n P e s st = (Ok (SigReturn v, e'), st') -> return_reachable s = true.
+Proof.
+  intros H. destruct (signal_inv_all n) as (Hs & _). apply Hs in H. destruct H as [_ H]. exact (H v eq_refl).
+Qed.
